@@ -7,6 +7,10 @@ did (oracle) and on what the model computes, and both proved of the model in Pro
       runner and to the post-processor, `results` = what the runner returned, in its order):
       staged / proposed / recorded-ineligible / retried are exactly what the property says.
       Everything is compared up to order (the runner's order is not part of the property).
+      `retriesSafe` (part of `routingOk`) and `retriesCounted` (per run) are judged for EVERY run, also one
+      outside the pipeline's contract: only payloads of the run are retried, as many as must be.
+  `checkedOk keep built checked` — final flows: what reached the runner is exactly the payload builder's
+      non-empty payloads that pass the coordinator's filter; an empty payload is never checked.
   `queueOk cfg log` — over a chronological log of retry-queue events (enqueues, and dequeues with
       what they handed out).  `queueSafe`: nothing is handed out before its interval, after its
       expiry window, twice without a new enqueue, never-enqueued, or with an older check block than the
@@ -51,6 +55,30 @@ def retriesOk (flow : Flow) (value : List Payload) (results : List Res) (retries
     retries.all (fun e => value.contains e.payload && results.any (justifies value e))
   else retries.isEmpty
 
+/-- "nothing else is retried", for EVERY run — also one outside the pipeline's contract (a retryable failure whose
+work id no payload carries, more results than payloads): each retried payload is a payload of the run and carries
+the interval of some retryable failure of the run, and there are no more retries than retryable failures -/
+def retriesSafe (flow : Flow) (value : List Payload) (results : List Res) (retries : List RetryRecord) : Bool :=
+  if flow.retries then
+    retries.all (fun e => value.contains e.payload &&
+      results.any (fun r => r.retryableFail && decide (r.retryInterval = e.interval))) &&
+    decide (retries.length ≤ (results.filter (·.retryableFail)).length)
+  else retries.isEmpty
+
+/-- how many retries ONE run must schedule, whatever the runner returned (`i` = position of the head of `results`):
+one per retryable failure whose work id some payload carries, or — when none does — whose position is within the
+payload list (the positional fallback); a retryable failure for an unknown work id past the payload list (more
+results than payloads) schedules nothing -/
+def retryCount (value : List Payload) : Nat → List Res → Nat
+  | _, [] => 0
+  | i, r :: rs =>
+    (if r.retryableFail && (carried value r || decide (i < value.length)) then 1 else 0) + retryCount value (i + 1) rs
+
+/-- over the runs of a case (payloads handed to the runner, what it returned): the retry sink received exactly as
+many records as the runs must schedule -/
+def retriesCounted (flow : Flow) (runs : List (List Payload × List Res)) (retries : List RetryRecord) : Bool :=
+  !flow.retries || decide (retries.length = (runs.map (fun x => retryCount x.1 0 x.2)).sum)
+
 def stagedOk (flow : Flow) (results : List Res) (s : Sinks) : Bool := s.staged.isPerm (expectStaged flow results)
 def proposedOk (flow : Flow) (results : List Res) (s : Sinks) : Bool := s.proposed.isPerm (expectProposed flow results)
 def ineligibleOk (flow : Flow) (results : List Res) (s : Sinks) : Bool := s.ineligible.isPerm (expectIneligible flow results)
@@ -59,12 +87,17 @@ def ineligibleOk (flow : Flow) (results : List Res) (s : Sinks) : Bool := s.inel
 payload carries) the retry clause is not judged: the property's quantifier does not cover them. -/
 def routingOk (flow : Flow) (value : List Payload) (results : List Res) (s : Sinks) : Bool :=
   stagedOk flow results s && proposedOk flow results s && ineligibleOk flow results s &&
+  retriesSafe flow value results s.retries &&
   (!contractOk value results || retriesOk flow value results s.retries)
 
 def explainRouting (flow : Flow) (value : List Payload) (results : List Res) (s : Sinks) : String :=
   if !stagedOk flow results s then "staged results differ from the eligible successes of the run"
   else if !proposedOk flow results s then "proposals differ from the eligible successes of the run"
   else if !ineligibleOk flow results s then "results recorded ineligible differ from the ineligible successes of the run"
+  else if !retriesSafe flow value results s.retries then
+    (if !flow.retries then "retry scheduled by a flow without retry sink"
+     else if !s.retries.all (fun e => value.contains e.payload) then "retried payload is not a payload of the run"
+     else "more retries than retryable failures, or a retry with an interval no retryable failure of the run has")
   else if !contractOk value results then "ok"
   else if !flow.retries then (if s.retries.isEmpty then "ok" else "retry scheduled by a flow without retry sink")
   else if !(s.retries.map retryKey).isPerm ((results.filter (·.retryableFail)).map failKey) then
@@ -72,6 +105,21 @@ def explainRouting (flow : Flow) (value : List Payload) (results : List Res) (s 
   else if !s.retries.all (fun e => value.contains e.payload) then "retried payload is not a payload of the run"
   else if !s.retries.all (fun e => results.any (justifies value e)) then
     "retried payload has the failure's work id but not its check block although the run had that payload"
+  else "ok"
+
+/-! ## what a final flow checks: the builder's non-empty payloads, each once, nothing else -/
+
+/-- `checked` = all payloads handed to the runner over the case's ticks, `built` = what the payload builder returned
+per tick, `keep` = the coordinator's filter: no empty payload is ever checked, and what is checked is exactly the
+non-empty built payloads that pass the filter (up to order: ticks are processed concurrently) -/
+def checkedOk (keep : Payload → Bool) (built : List (List Payload)) (checked : List Payload) : Bool :=
+  checked.all (fun p => !payloadEmpty p) &&
+  checked.isPerm ((built.flatMap id).filter (fun p => !payloadEmpty p && keep p))
+
+def explainChecked (keep : Payload → Bool) (built : List (List Payload)) (checked : List Payload) : String :=
+  if !checked.all (fun p => !payloadEmpty p) then "an empty payload (empty work id) was handed to the check pipeline"
+  else if !checked.isPerm ((built.flatMap id).filter (fun p => !payloadEmpty p && keep p)) then
+    "the payloads checked by a final flow are not the non-empty payloads its builder returned (lost, doubled or foreign)"
   else "ok"
 
 /-! ## hypotheses of the exactness theorem -/
